@@ -1,6 +1,27 @@
 /-
-  C15, third part — counts through the iterators, distinctness of the darts around an edge, the end-point variant of
-  the collapse.  (header completed below, see the theorem docstrings)
+  C15, third part (all on ARBITRARY well-formed 2-maps, hypotheses listed at each theorem; every theorem is applied to a
+  concrete call at the end of the file).
+
+  (1) counts through the iterators (`iter_vertices` / `iter_edges` / `iter_faces`, C03):
+      swap 0/0/0 (`C15_swap_counts`, `C15_swap_face_count`, `C15_swap_edge_count`, vertices in `C15_swap_cells`);
+      outer cut: `C15_cutOuter_face_count` (+2 triangles for 1 triangle + 3 spare darts: `len' + 2 = len`),
+      `C15_cutOuter_edge_count`, `C15_cutOuter_vertex_count` / `C15_cutOuter_vertices`;
+      inner cut: `C15_cutInner_face_count` / `C15_cutInner_faces`, `C15_cutInner_vertex_count` / `C15_cutInner_vertices`;
+      interior midpoint collapse: `C15_collapse_midpoint_face_count`.
+      (A spare dart is a vertex, an edge and a face of its own for the iterators: `len' + k = len` with `k` spare cells
+      absorbed; the MESH changes by +1 V, +2 E, +1 F / +1 V, +3 E, +2 F / −2 F.)
+      Generic tools: `iterFaces_count`, `iterEdges_count` (darts touched by an edit listed in `M`), `iterVertices_count`
+      (a projection `π` relating the two vertex graphs, `reach_equiv_of_projection`), `vertex_steps_of_pairs`.
+  (2) cut_inner_edge: `C15_cutInner_cells` (the four new faces with identifiers, the new vertex `{n1,n3,n4,n6}` with
+      identifier `min`, every other face and the vertex partition of the old darts unchanged) and
+      `C15_cutInner_midpoint_in_final_map` (the new vertex holds the average of the end points in the FINAL map).
+  (3) swap: `C15_swap_cells` (who shares a vertex with whom afterwards) and `C15_swap_moves_corners` (finding D9 as a
+      theorem: the end points keep their values, the two opposite corners become `(C + A)/2` or `((C + A)/2 + C)/2`).
+      Both value theorems follow the vertex values at DART level through the sews (Lemmas/RemeshValues.lean).
+  (4) `C15_collapse_endpoint_interior`: the anchor-driven collapse (`Collapsible::Left`) on an interior configuration:
+      well-formedness, the six flagged darts, the re-gluing, the frame — unconditionally (`TrJ` of Props/C15b.lean).
+  (5) `C15_six_distinct`: the six darts around an interior edge are pairwise distinct as soon as the two faces are
+      different closed triangles that are not loops.
 -/
 import Honeycomb.Props.C15b
 import Honeycomb.Lemmas.RemeshValues
@@ -2626,6 +2647,353 @@ theorem C15_cutInner_midpoint_in_final_map (cfg : Cfg Val) (hL : cfg.law 0 = avg
   exact v22n1
 
 
+/-! ## (4) collapse towards an end point (the anchor-driven variant)
+
+`TrJ` (Props/C15b.lean) for `collapse_halfcell_to_base` and `collapse_edge_to_base`, then symbolic evaluation of the β
+function on the twelve darts involved. -/
+
+section
+variable {n : Nat} {u : Array Bool} {α : Type}
+
+theorem TrJ.ite_pos {c : Prop} [Decidable c] {p q : P Val α} {Pre : BF → Prop} {F : BF → BF}
+    {U : BF → Array Bool → Array Bool} (hp : TrJ n u p Pre F U) :
+    TrJ n u (if c then p else q) (fun f => c ∧ Pre f) F U := by
+  intro m m' a hi hpre h
+  rw [if_pos hpre.1] at h
+  exact hp m m' a hi hpre.2 h
+
+theorem TrJ.twoUnlinkCore {l : Nat} (hl : l ≠ 0 → Live n u l) :
+    TrJ n u (iUnlinkCore (X := Val) 2 l) (fun _ => True) (fun f => unl2 f l) (fun _ w => w) :=
+  TrJ.of (keepsJ_twoUnlink_opt hl) (Eff.twoUnlinkCore l)
+
+/-- β function after `collapse_halfcell_to_base(dPe, dE, dNe)` when the side `dNe` is interior -/
+def halfBaseF (dPe dE dNe : Nat) (f : BF) : BF :=
+  lnk1 (lnk1 (unl2 (unl1 (unl1 (unl1 (unl1 (unl1 f dE) dPe) dNe) (f 2 dNe)) (f 0 (f 2 dNe))) dNe) dPe (f 1 (f 2 dNe)))
+    (f 0 (f 2 dNe)) dPe
+/-- the side is interior and the two 1-sews are handed non-null darts -/
+def halfBasePre (dPe dE dNe : Nat) (f : BF) : Prop :=
+  f 2 dNe ≠ 0 ∧ dPe ≠ 0 ∧ f 1 (f 2 dNe) ≠ 0 ∧ f 0 (f 2 dNe) ≠ 0
+def halfBaseU (dPe dE dNe : Nat) (f : BF) (w : Array Bool) : Array Bool := wr (wr (wr w dE true) dNe true) (f 2 dNe) true
+
+theorem trj_halfBase (cfg : Cfg Val) {dPe dE dNe : Nat} (hp : dPe ≠ 0 → Live n u dPe) (he : dE ≠ 0 → Live n u dE)
+    (hn : dNe ≠ 0 → Live n u dNe) :
+    TrJ n u (collapseHalfBase cfg n dPe dE dNe) (halfBasePre dPe dE dNe) (halfBaseF dPe dE dNe)
+      (halfBaseU dPe dE dNe) := by
+  unfold collapseHalfBase
+  have key :=
+    TrJ.rB_bind (n := n) (u := u) (i := 2) (d := dNe) fun x hx =>
+    TrJ.rB_bind (n := n) (u := u) (i := 0) (d := x) fun p hp' =>
+    TrJ.rB_bind (n := n) (u := u) (i := 1) (d := x) fun q hq =>
+    TrJ.bind (TrJ.oneUnsew2 cfg he) fun _ =>
+    TrJ.bind (TrJ.oneUnsew2 cfg hp) fun _ =>
+    TrJ.bind (TrJ.oneUnsew2 cfg hn) fun _ =>
+    TrJ.ite_pos (n := n) (u := u) (c := x ≠ 0) (q := (Pure.pure () : P Val Unit)) (
+      TrJ.bind (TrJ.oneUnsew2 (n := n) (u := u) cfg (l := x) hx) fun _ =>
+      TrJ.bind (TrJ.oneUnsew2 (n := n) (u := u) cfg (l := p) hp') fun _ =>
+      TrJ.bind (TrJ.twoUnlinkCore hn) fun _ =>
+      TrJ.bind (TrJ.flag (n := n) (u := u) dE) fun _ =>
+      TrJ.bind (TrJ.flag (n := n) (u := u) dNe) fun _ =>
+      TrJ.bind (TrJ.flag (n := n) (u := u) x) fun _ =>
+      TrJ.bind (TrJ.oneSew2 (n := n) (u := u) cfg (x := dPe) (y := q) hp hq) fun _ =>
+      TrJ.oneSew2 (n := n) (u := u) cfg (x := p) (y := dPe) hp' hp)
+  refine key.conv ?_ (fun f => rfl) (fun f w => rfl)
+  intro f hf
+  unfold halfBasePre at hf
+  exact ⟨trivial, trivial, trivial, hf.1, trivial, trivial, trivial, trivial, trivial, trivial, ⟨hf.2.1, hf.2.2.1⟩,
+    hf.2.2.2, hf.2.1⟩
+
+/-- β function after `collapse_edge_to_base` on an interior edge (base `l`): half cells `(c, r, d)` then `(b, l, a)` -/
+def baseF (l r a b c d : Nat) (f : BF) : BF := halfBaseF b l a (halfBaseF c r d (unl2 f l))
+def basePre (l r a b c d : Nat) (f : BF) : Prop :=
+  halfBasePre c r d (unl2 f l) ∧ halfBasePre b l a (halfBaseF c r d (unl2 f l))
+def baseU (l r a b c d : Nat) (f : BF) (w : Array Bool) : Array Bool :=
+  halfBaseU b l a (halfBaseF c r d (unl2 f l)) (halfBaseU c r d (unl2 f l) w)
+
+theorem trj_base (cfg : Cfg Val) {b0l l b1l b0r r b1r : Nat} (hr0 : r ≠ 0)
+    (h0l : b0l ≠ 0 → Live n u b0l) (hl : l ≠ 0 → Live n u l) (h1l : b1l ≠ 0 → Live n u b1l)
+    (h0r : b0r ≠ 0 → Live n u b0r) (hr : r ≠ 0 → Live n u r) (h1r : b1r ≠ 0 → Live n u b1r) :
+    TrJ n u (collapseEdgeToBase cfg n b0l l b1l b0r r b1r) (basePre l r b1l b0l b1r b0r) (baseF l r b1l b0l b1r b0r)
+      (baseU l r b1l b0l b1r b0r) := by
+  unfold collapseEdgeToBase
+  simp only [hr0, ne_eq, not_false_eq_true, if_true]
+  have key :=
+    TrJ.bind (TrJ.ro (n := n) (u := u) (readOnly_vertexId2 n l)) fun lVid =>
+    TrJ.bind (TrJ.ro (n := n) (u := u) (ReadOnly.rA 0 lVid)) fun tv =>
+    TrJ.bind (TrJ.attr (n := n) (u := u) (ao_readAttr cfg stVA lVid)) fun ta =>
+    TrJ.bind (TrJ.twoUnsew2 cfg hl) fun _ =>
+    TrJ.bind (trj_halfBase cfg h1r hr h0r) fun _ =>
+    TrJ.rB_bind (n := n) (u := u) (i := 2) (d := b0l) fun x _ =>
+    TrJ.bind (trj_halfBase cfg h0l hl h1l) fun _ =>
+    TrJ.bind (TrJ.ro (n := n) (u := u) (ro_collapsedVid n x r b1r)) fun newVid =>
+    TrJ.attr (n := n) (u := u) (ao_baseWriteBack cfg newVid tv ta)
+  refine key.conv ?_ (fun f => rfl) (fun f w => rfl)
+  intro f hf
+  exact ⟨trivial, trivial, trivial, trivial, hf.1, hf.2, trivial, trivial⟩
+
+end
+
+set_option maxHeartbeats 3200000 in
+/-- pure evaluation of `baseF`: two β1-triangles `l → a → b → l`, `r → c → d → r` glued along `l | r`; the sides `a`, `d`
+    are glued to `xa`, `xd`, whose faces continue with `pa → xa → qa` and `pd → xd → qd` (twelve darts, pairwise
+    distinct) -/
+theorem collapseBase_chain_eval (f : BF) (l r a b c d xa pa qa xd pd qd : Nat)
+    (hd : [l, r, a, b, c, d, xa, pa, qa, xd, pd, qd].Nodup)
+    (x0 : xa ≠ 0 ∧ pa ≠ 0 ∧ qa ≠ 0 ∧ xd ≠ 0 ∧ pd ≠ 0 ∧ qd ≠ 0 ∧ b ≠ 0 ∧ c ≠ 0)
+    (k1 : f 2 l = r) (k2 : f 2 r = l) (ka : f 2 a = xa) (ka' : f 2 xa = a) (kd : f 2 d = xd) (kd' : f 2 xd = d)
+    (h1 : f 1 l = a) (h2 : f 1 a = b) (h3 : f 1 b = l) (h4 : f 1 r = c) (h5 : f 1 c = d) (h6 : f 1 d = r)
+    (n1 : f 1 xa = qa) (n2 : f 1 pa = xa) (n3 : f 1 xd = qd) (n4 : f 1 pd = xd)
+    (g1 : f 0 a = l) (g2 : f 0 b = a) (g3 : f 0 l = b) (g4 : f 0 c = r) (g5 : f 0 d = c) (g6 : f 0 r = d)
+    (o1 : f 0 xa = pa) (o2 : f 0 qa = xa) (o3 : f 0 xd = pd) (o4 : f 0 qd = xd) :
+    basePre l r a b c d f ∧
+    ((baseF l r a b c d f 0 l = 0 ∧ baseF l r a b c d f 1 l = 0 ∧ baseF l r a b c d f 2 l = 0) ∧
+     (baseF l r a b c d f 0 a = 0 ∧ baseF l r a b c d f 1 a = 0 ∧ baseF l r a b c d f 2 a = 0) ∧
+     (baseF l r a b c d f 0 xa = 0 ∧ baseF l r a b c d f 1 xa = 0 ∧ baseF l r a b c d f 2 xa = 0) ∧
+     (baseF l r a b c d f 0 r = 0 ∧ baseF l r a b c d f 1 r = 0 ∧ baseF l r a b c d f 2 r = 0) ∧
+     (baseF l r a b c d f 0 d = 0 ∧ baseF l r a b c d f 1 d = 0 ∧ baseF l r a b c d f 2 d = 0) ∧
+     (baseF l r a b c d f 0 xd = 0 ∧ baseF l r a b c d f 1 xd = 0 ∧ baseF l r a b c d f 2 xd = 0)) ∧
+    (baseF l r a b c d f 1 pa = b ∧ baseF l r a b c d f 1 b = qa ∧ baseF l r a b c d f 0 b = pa ∧
+      baseF l r a b c d f 0 qa = b ∧ baseF l r a b c d f 2 b = f 2 b) ∧
+    (baseF l r a b c d f 1 pd = c ∧ baseF l r a b c d f 1 c = qd ∧ baseF l r a b c d f 0 c = pd ∧
+      baseF l r a b c d f 0 qd = c ∧ baseF l r a b c d f 2 c = f 2 c) ∧
+    (∀ i x, x ∉ [l, r, a, b, c, d, xa, pa, qa, xd, pd, qd] → baseF l r a b c d f i x = f i x) := by
+  simp only [List.nodup_cons, List.mem_cons, List.mem_nil_iff, not_or, or_false, List.nodup_nil, and_true] at hd
+  obtain ⟨xa0, pa0, qa0, xd0, pd0, qd0, b0, c0⟩ := x0
+  refine ⟨⟨⟨?_, ?_, ?_, ?_⟩, ⟨?_, ?_, ?_, ?_⟩⟩, ⟨⟨?_, ?_, ?_⟩, ⟨?_, ?_, ?_⟩, ⟨?_, ?_, ?_⟩, ⟨?_, ?_, ?_⟩, ⟨?_, ?_, ?_⟩, ⟨?_, ?_, ?_⟩⟩,
+    ⟨?_, ?_, ?_, ?_, ?_⟩, ⟨?_, ?_, ?_, ?_, ?_⟩, ?_⟩
+  all_goals try (first | assumption | simp only [basePre, halfBasePre, baseF, halfBaseF, lnk1, lnk2, unl1, unl2, upd_apply, k1, k2, ka, ka', kd, kd', h1, h2, h3, h4, h5, h6, n1, n2, n3, n4, g1, g2, g3, g4, g5, g6, o1, o2, o3, o4]; simp [*, eq_comm]; done)
+  · intro i x hx
+    simp only [List.mem_cons, List.mem_nil_iff, not_or, or_false] at hx
+    have hx' := hx
+    simp only [@eq_comm _ x] at hx'
+    simp only [baseF, halfBaseF, lnk1, lnk2, unl1, unl2, upd_apply, k1, k2, ka, ka', kd, kd', h1, h2, h3, h4, h5, h6, n1, n2, n3, n4, g1, g2, g3, g4, g5, g6, o1, o2, o3, o4]
+    simp [*, eq_comm]
+
+
+theorem ro_readAttr (cfg : Cfg Val) (s id : Nat) : ReadOnly (readAttr cfg s id) := by
+  unfold readAttr
+  exact ReadOnly.ite (ReadOnly.rA _ _) (ReadOnly.pure _)
+
+/-- `is_collapsible` only reads -/
+theorem ro_isCollapsible (cfg : Cfg Val) (k e : Nat) : ReadOnly (isCollapsible cfg k e) := by
+  unfold isCollapsible
+  refine ReadOnly.ite (ReadOnly.pure _) ?_
+  refine ReadOnly.bind (ReadOnly.rB _ _) fun _ => ?_
+  refine ReadOnly.bind (readOnly_vertexId2 _ _) fun _ => ?_
+  refine ReadOnly.bind (readOnly_vertexId2 _ _) fun _ => ?_
+  refine ReadOnly.bind (ro_readAttr _ _ _) fun a1 => ?_
+  refine ReadOnly.bind (ro_readAttr _ _ _) fun a2 => ?_
+  refine ReadOnly.bind (ro_readAttr _ _ _) fun a3 => ?_
+  intro m
+  split
+  · split
+    · split <;> rfl
+    · rfl
+  · rfl
+
+theorem collapseBase_flags (f : BF) (l r a b c d xa xd : Nat)
+    (hd : [l, r, a, d, xd].Nodup) (k1 : f 2 l = r) (ka : f 2 a = xa) (kd : f 2 d = xd) (w : Array Bool) :
+    baseU l r a b c d f w = wr (wr (wr (wr (wr (wr w r true) d true) xd true) l true) a true) xa true := by
+  simp only [List.nodup_cons, List.mem_cons, List.mem_nil_iff, not_or, or_false, List.nodup_nil, and_true] at hd
+  obtain ⟨⟨d1, d2, d3, d4⟩, ⟨d5, d6, d7⟩, ⟨d8, d9⟩, d10, _⟩ := hd
+  have e1 : unl2 f l 2 d = xd := by
+    rw [unl2_two', k1]; simp [d6, d3, kd]
+  have e2 : halfBaseF c r d (unl2 f l) 2 a = xa := by
+    unfold halfBaseF
+    simp only [lnk1_two', unl2_two', unl1_two', e1, k1]
+    simp [Ne.symm d9, Ne.symm d8, Ne.symm d5, Ne.symm d2, d5, d2, ka]
+  simp only [baseU, halfBaseU, e1, e2]
+
+/-- **C15 (4), collapse towards an end point (`Collapsible::Left`), interior configuration**: on ANY well-formed 2-map,
+    whenever the anchors make `is_collapsible(e)` answer `Left` and `collapse_edge(e)` itself (no assertion added)
+    succeeds on an interior edge whose two faces are closed triangles `e → a → b`, `r → c → d` (`r = β2 e`), whose sides
+    `a = β1 e` and `d = β0 r` are interior too (`xa = β2 a`, `xd = β2 d`, with `pa = β0 xa`, `qa = β1 xa`, `pd = β0 xd`,
+    `qd = β1 xd` the neighbours of `xa`, `xd` in their faces), the twelve darts being pairwise distinct, then
+    * the two 1-sews of each half were handed non-null darts and every flagged dart is free: the resulting map is WELL
+      FORMED, unconditionally;
+    * exactly the six darts `e, a, xa, r, d, xd` are flagged, all their β images are null — the kernel removes the dart
+      `xa` (`xd`) of the NEIGHBOURING face, not `b` (`c`);
+    * `b` takes the place of `xa` in its face (`pa → b → qa`), `c` that of `xd` (`pd → c → qd`), both keep their β2;
+    * every image of every other dart and every other flag is unchanged.
+    (With `β2 a` or `β2 d` null the kernel skips the removal: finding D15e.) -/
+theorem C15_collapse_endpoint_interior (cfg : Cfg Val) (m m' : Map Val) (e v : Nat) (hwf : WF 3 m) (he : C01.InUse m e)
+    (hleft : (run (isCollapsible cfg m.n e) m).1 = .ok .left)
+    (h : run (collapseEdge cfg m.n e) m = (.ok v, m'))
+    (hr0 : m.β 2 e ≠ 0) (hb : m.β 0 e ≠ 0) (hd : m.β 0 (m.β 2 e) ≠ 0)
+    (hx : m.β 2 (m.β 1 e) ≠ 0 ∧ m.β 0 (m.β 2 (m.β 1 e)) ≠ 0 ∧ m.β 1 (m.β 2 (m.β 1 e)) ≠ 0 ∧
+      m.β 2 (m.β 0 (m.β 2 e)) ≠ 0 ∧ m.β 0 (m.β 2 (m.β 0 (m.β 2 e))) ≠ 0 ∧ m.β 1 (m.β 2 (m.β 0 (m.β 2 e))) ≠ 0)
+    (hnd : [e, m.β 2 e, m.β 1 e, m.β 0 e, m.β 1 (m.β 2 e), m.β 0 (m.β 2 e),
+      m.β 2 (m.β 1 e), m.β 0 (m.β 2 (m.β 1 e)), m.β 1 (m.β 2 (m.β 1 e)),
+      m.β 2 (m.β 0 (m.β 2 e)), m.β 0 (m.β 2 (m.β 0 (m.β 2 e))), m.β 1 (m.β 2 (m.β 0 (m.β 2 e)))].Nodup) :
+    WF 3 m' ∧
+    (∀ x, x ∈ [e, m.β 1 e, m.β 2 (m.β 1 e), m.β 2 e, m.β 0 (m.β 2 e), m.β 2 (m.β 0 (m.β 2 e))] →
+      m'.unused x = true ∧ ∀ i, i < 3 → m'.β i x = 0) ∧
+    (m'.β 1 (m.β 0 (m.β 2 (m.β 1 e))) = m.β 0 e ∧ m'.β 1 (m.β 0 e) = m.β 1 (m.β 2 (m.β 1 e)) ∧
+      m'.β 0 (m.β 0 e) = m.β 0 (m.β 2 (m.β 1 e)) ∧ m'.β 0 (m.β 1 (m.β 2 (m.β 1 e))) = m.β 0 e ∧
+      m'.β 2 (m.β 0 e) = m.β 2 (m.β 0 e)) ∧
+    (m'.β 1 (m.β 0 (m.β 2 (m.β 0 (m.β 2 e)))) = m.β 1 (m.β 2 e) ∧
+      m'.β 1 (m.β 1 (m.β 2 e)) = m.β 1 (m.β 2 (m.β 0 (m.β 2 e))) ∧
+      m'.β 0 (m.β 1 (m.β 2 e)) = m.β 0 (m.β 2 (m.β 0 (m.β 2 e))) ∧
+      m'.β 0 (m.β 1 (m.β 2 (m.β 0 (m.β 2 e)))) = m.β 1 (m.β 2 e) ∧
+      m'.β 2 (m.β 1 (m.β 2 e)) = m.β 2 (m.β 1 (m.β 2 e))) ∧
+    (∀ i x, x ∉ [e, m.β 2 e, m.β 1 e, m.β 0 e, m.β 1 (m.β 2 e), m.β 0 (m.β 2 e),
+      m.β 2 (m.β 1 e), m.β 0 (m.β 2 (m.β 1 e)), m.β 1 (m.β 2 (m.β 1 e)),
+      m.β 2 (m.β 0 (m.β 2 e)), m.β 0 (m.β 2 (m.β 0 (m.β 2 e))), m.β 1 (m.β 2 (m.β 0 (m.β 2 e)))] → m'.β i x = m.β i x) ∧
+    m'.n = m.n ∧
+    (∀ x, x ∉ [e, m.β 1 e, m.β 2 (m.β 1 e), m.β 2 e, m.β 0 (m.β 2 e), m.β 2 (m.β 0 (m.β 2 e))] →
+      m'.unused x = m.unused x) := by
+  have hn := he.2.1
+  rw [C15_collapse_guards cfg m.n e m (fun i d hi hd => (hwf.toSized.okβ i d).2 ⟨hi, hd⟩)
+    (fun i d hi hd => hwf.range i hi d hd) hn] at h
+  simp only [he.1, if_false] at h
+  by_cases gl : m.β 1 (m.β 1 e) = m.β 0 e
+  swap
+  · simp [gl] at h
+  simp only [gl, ne_eq, not_true_eq_false, if_false] at h
+  by_cases gr : m.β 1 (m.β 1 (m.β 2 e)) = m.β 0 (m.β 2 e)
+  swap
+  · simp [gr, hr0] at h
+  simp only [gr, not_true_eq_false, and_false, if_false] at h
+  obtain ⟨xa0, pa0, qa0, xd0, pd0, qd0⟩ := hx
+  have hr : m.β 2 e < m.n := hwf.range 2 (by omega) e hn
+  have a0 : m.β 1 e ≠ 0 := fun hh => hb (by rw [← gl, hh]; exact hwf.null 1 (by omega))
+  have c0 : m.β 1 (m.β 2 e) ≠ 0 := fun hh => hd (by rw [← gr, hh]; exact hwf.null 1 (by omega))
+  have ha : m.β 1 e < m.n := hwf.range 1 (by omega) e hn
+  have hc : m.β 1 (m.β 2 e) < m.n := hwf.range 1 (by omega) _ hr
+  have hdn : m.β 0 (m.β 2 e) < m.n := hwf.range 0 (by omega) _ hr
+  have hxa : m.β 2 (m.β 1 e) < m.n := hwf.range 2 (by omega) _ ha
+  have hxd : m.β 2 (m.β 0 (m.β 2 e)) < m.n := hwf.range 2 (by omega) _ hdn
+  have Le : Live m.n m.u e := Live.of_inUse he
+  have Lr := live_image hwf (by omega : 2 < 3) hn hr0
+  have La := live_image hwf (by omega : 1 < 3) hn a0
+  have Lb := live_image hwf (by omega : 0 < 3) hn hb
+  have Lc := live_image hwf (by omega : 1 < 3) hr c0
+  have Ld := live_image hwf (by omega : 0 < 3) hr hd
+  -- the body: the anchors choose `Left`
+  unfold collapseBodyG at h
+  obtain ⟨cc, hc0, h⟩ := ro_bind_ok (ro_isCollapsible _ _ _) h
+  rw [hc0] at hleft
+  simp only [Out.ok.injEq] at hleft
+  subst hleft
+  simp only at h
+  have eqk : edgeToBaseG (fun _ => pure ()) cfg m.n (m.β 0 e) e (m.β 1 e) (m.β 0 (m.β 2 e)) (m.β 2 e)
+      (m.β 1 (m.β 2 e)) = collapseEdgeToBase cfg m.n (m.β 0 e) e (m.β 1 e) (m.β 0 (m.β 2 e)) (m.β 2 e)
+      (m.β 1 (m.β 2 e)) := rfl
+  rw [eqk] at h
+  obtain ⟨vid, m1, r1, h2⟩ := run_bind_ok h
+  obtain ⟨ok, _, h3⟩ := ro_bind_ok (ro_isOrbitOrientationConsistent _ _) h2
+  have em : m' = m1 := by
+    cases ok
+    · simp at h3
+    · simp at h3; exact h3.2.symm
+  subst em
+  -- symbolic execution
+  have er := (hwf.invol 2 (by omega) (by omega) e hn hr0).1
+  have ev := collapseBase_chain_eval m.β e (m.β 2 e) (m.β 1 e) (m.β 0 e) (m.β 1 (m.β 2 e)) (m.β 0 (m.β 2 e))
+    (m.β 2 (m.β 1 e)) (m.β 0 (m.β 2 (m.β 1 e))) (m.β 1 (m.β 2 (m.β 1 e)))
+    (m.β 2 (m.β 0 (m.β 2 e))) (m.β 0 (m.β 2 (m.β 0 (m.β 2 e)))) (m.β 1 (m.β 2 (m.β 0 (m.β 2 e)))) hnd
+    ⟨xa0, pa0, qa0, xd0, pd0, qd0, hb, c0⟩
+    rfl er rfl (hwf.invol 2 (by omega) (by omega) _ ha xa0).1 rfl (hwf.invol 2 (by omega) (by omega) _ hdn xd0).1
+    rfl gl (hwf.inv10 e hn hb) rfl gr (hwf.inv10 _ hr hd)
+    rfl (hwf.inv10 _ hxa pa0) rfl (hwf.inv10 _ hxd pd0)
+    (hwf.inv01 e hn a0) (by rw [← gl]; exact hwf.inv01 _ ha (by rw [gl]; exact hb)) rfl
+    (hwf.inv01 _ hr c0) (by rw [← gr]; exact hwf.inv01 _ hc (by rw [gr]; exact hd)) rfl
+    rfl (hwf.inv01 _ hxa qa0) rfl (hwf.inv01 _ hxd qd0)
+  obtain ⟨pre, ⟨ze, za, zxa, zr, zd, zxd⟩, glueL, glueR, frame⟩ := ev
+  have J0 : InvJ m.n m.u m := ⟨hwf, rfl, hwf.usz⟩
+  obtain ⟨J, hβ, hu⟩ := trj_base (n := m.n) (u := m.u) cfg hr0 (fun _ => Lb) (fun _ => Le) (fun _ => La)
+    (fun _ => Ld) (fun _ => Lr) (fun _ => Lc) m m' vid J0 pre r1
+  -- the flags written: `r, d, xd` then `e, a, xa`
+  have hnd' := hnd
+  simp only [List.nodup_cons, List.mem_cons, List.mem_nil_iff, not_or, or_false, List.nodup_nil, and_true] at hnd'
+  have hU : m'.u = wr (wr (wr (wr (wr (wr m.u (m.β 2 e) true) (m.β 0 (m.β 2 e)) true) (m.β 2 (m.β 0 (m.β 2 e))) true)
+      e true) (m.β 1 e) true) (m.β 2 (m.β 1 e)) true := by
+    rw [hu]
+    exact collapseBase_flags m.β e (m.β 2 e) (m.β 1 e) (m.β 0 e) (m.β 1 (m.β 2 e)) (m.β 0 (m.β 2 e)) _ _
+      (by simp [hnd'.1.1, hnd'.1.2.1, hnd'.1.2.2.2.2.1, hnd'.1.2.2.2.2.2.2.2.2.1, hnd'.2.1.1, hnd'.2.1.2.2.2.1,
+        hnd'.2.1.2.2.2.2.2.2.2.1, hnd'.2.2.1.2.2.1, hnd'.2.2.1.2.2.2.2.2.2.1, hnd'.2.2.2.2.2.1.2.2.2.1])
+      rfl rfl rfl m.u
+  have flagged : ∀ x, m'.unused x = true →
+      x ∈ [e, m.β 1 e, m.β 2 (m.β 1 e), m.β 2 e, m.β 0 (m.β 2 e), m.β 2 (m.β 0 (m.β 2 e))] ∨ m.unused x = true := by
+    intro x hxu
+    unfold Map.unused at hxu ⊢
+    rw [hU] at hxu
+    rcases rd_wr_true hxu with rfl | hxu
+    · simp
+    rcases rd_wr_true hxu with rfl | hxu
+    · simp
+    rcases rd_wr_true hxu with rfl | hxu
+    · simp
+    rcases rd_wr_true hxu with rfl | hxu
+    · simp
+    rcases rd_wr_true hxu with rfl | hxu
+    · simp
+    rcases rd_wr_true hxu with rfl | hxu
+    · simp
+    exact Or.inr hxu
+  have zero : ∀ x, x ∈ [e, m.β 1 e, m.β 2 (m.β 1 e), m.β 2 e, m.β 0 (m.β 2 e), m.β 2 (m.β 0 (m.β 2 e))] →
+      ∀ i, i < 3 → m'.β i x = 0 := by
+    intro x hx i hi
+    rw [hβ]
+    simp only [List.mem_cons, List.mem_nil_iff, or_false] at hx
+    have i3 : i = 0 ∨ i = 1 ∨ i = 2 := by omega
+    rcases hx with rfl | rfl | rfl | rfl | rfl | rfl <;> rcases i3 with rfl | rfl | rfl
+    · exact ze.1
+    · exact ze.2.1
+    · exact ze.2.2
+    · exact za.1
+    · exact za.2.1
+    · exact za.2.2
+    · exact zxa.1
+    · exact zxa.2.1
+    · exact zxa.2.2
+    · exact zr.1
+    · exact zr.2.1
+    · exact zr.2.2
+    · exact zd.1
+    · exact zd.2.1
+    · exact zd.2.2
+    · exact zxd.1
+    · exact zxd.2.1
+    · exact zxd.2.2
+  have w := J.wf
+  have hwf' : WF 3 m' := by
+    refine ⟨⟨w.npos, w.rows, w.row, ?_, w.asz⟩, ⟨w.null, w.range, w.inv01, w.inv10, w.invol, ?_⟩⟩
+    · rw [J.usz]; exact J.n_eq.symm
+    · intro x hxn hxu i hi
+      rcases flagged x hxu with hm | hm
+      · exact zero x hm i hi
+      · exact w.unusedFree x hxn hm i hi
+  have setf : ∀ x, x ∈ [e, m.β 1 e, m.β 2 (m.β 1 e), m.β 2 e, m.β 0 (m.β 2 e), m.β 2 (m.β 0 (m.β 2 e))] →
+      m'.unused x = true := by
+    intro x hx
+    have hxn : x < m.u.size := by
+      rw [hwf.usz]
+      simp only [List.mem_cons, List.mem_nil_iff, or_false] at hx
+      rcases hx with rfl | rfl | rfl | rfl | rfl | rfl
+      · exact hn
+      · exact ha
+      · exact hxa
+      · exact hr
+      · exact hdn
+      · exact hxd
+    unfold Map.unused
+    rw [hU]
+    simp only [rd_wr, size_wr]
+    simp only [List.mem_cons, List.mem_nil_iff, or_false] at hx
+    rcases hx with rfl | rfl | rfl | rfl | rfl | rfl <;> simp [hxn]
+  refine ⟨hwf', fun x hx => ⟨setf x hx, zero x hx⟩, ?_, ?_, ?_, J.n_eq, ?_⟩
+  · rw [hβ]; exact glueL
+  · rw [hβ]; exact glueR
+  · intro i x hx; rw [hβ]; exact frame i x hx
+  · intro x hx
+    simp only [List.mem_cons, List.mem_nil_iff, not_or, or_false] at hx
+    obtain ⟨x1, x2, x3, x4, x5, x6⟩ := hx
+    unfold Map.unused
+    rw [hU]
+    simp only [rd_wr]
+    simp [Ne.symm x1, Ne.symm x2, Ne.symm x3, Ne.symm x4, Ne.symm x5, Ne.symm x6]
+
+
 /-! ## non-vacuity: every theorem above applied to a concrete call -/
 
 /-- `C15_six_distinct` on the diagonal of the unit square -/
@@ -2750,5 +3118,14 @@ example : ∃ m', run (cutInnerEdge (stdCfg 3 0) sq6.n 2 12 11 10 9 8 7) sq6 = (
   rw [e3] at hid
   rw [hid, ← ha, ← hb] at hv
   exact ⟨_, hrun, hid, by rw [hv]; decide +kernel⟩
+
+/-- `C15_collapse_endpoint_interior` on `collapse_edge(12)` of `flatGrid` (anchored 2 x 2 grid after one outer cut): the
+    anchors choose `Left`, the call answers `ok 6`, the twelve darts are distinct, the result is well formed -/
+example : ∃ m', run (collapseEdge (stdCfg 3 224) flatGrid.n 12) flatGrid = (.ok 6, m') ∧ WF 3 m' ∧
+    m'.unused 12 = true ∧ m'.unused (flatGrid.β 2 (flatGrid.β 1 12)) = true := by
+  have hrun := run_eq_of_fst (p := collapseEdge (stdCfg 3 224) flatGrid.n 12) (m := flatGrid) (a := 6) (by decide +kernel)
+  have k := C15_collapse_endpoint_interior (stdCfg 3 224) flatGrid _ 12 6 (by decide +kernel) (by decide +kernel) (by decide +kernel) hrun
+    (by decide +kernel) (by decide +kernel) (by decide +kernel) (by decide +kernel) (by decide +kernel)
+  exact ⟨_, hrun, k.1, (k.2.1 12 (by simp)).1, (k.2.1 _ (by simp)).1⟩
 
 end HC.C15
